@@ -69,7 +69,7 @@ CORPUS = [
         {'k': 'gap1d', 'src': 5}, {'k': 'flatten', 'src': 6},
         {'k': 'linear', 'src': 7, 'cin': 5, 'cout': 3, 'bias': True})},
         'style': 'one-dead', 'single': False, 'full_cost': False, 'exclude': []}),
-    ('depthwise-pruned-respecified-2d', {'spec': {'dim': 2, 'input_shape': [3, 6, 6], 'out': [7], 'productions': ['corpus', 'dw'], 'nodes': _n(
+    ('depthwise-pruned-respecified-2d', {'spec': {'dim': 2, 'input_shape': [3, 6, 6], 'out': [8], 'productions': ['corpus', 'dw'], 'nodes': _n(
         {'k': 'in', 'shape': [3, 6, 6]},
         {'k': 'conv2d', 'src': 0, 'cin': 3, 'cout': 6, 'ks': [3, 3], 'dil': 1, 'stride': 1, 'groups': 1, 'bias': False, 'padding': 1},
         {'k': 'bn2d', 'src': 1, 'c': 6}, {'k': 'relu', 'src': 2},
@@ -106,6 +106,21 @@ def coq_layer(L):
 def coq_mask(L):
     fr = lambda l: [Fraction(x) for x in (l or [])]
     return '(mkMask %s %s %s %s)' % (coq(bool(L.get('afrozen'))), coq(fr(L.get('alpha'))), coq(fr(L.get('beta'))), coq(fr(L.get('gamma'))))
+
+
+def composed_expr(o):
+    """the same case for the COMPOSED model (Model/PitCostNet.v): the C09 node IR of the grammar spec (vlib/c09.py's
+    translation), per-node extra data and mask parameters; calculators are derived by the C09 model, not read"""
+    from . import c09
+    spec = o['spec']
+    idx = {cn.ga.name(i): i for i in range(len(spec['nodes']))}
+    spec2 = dict(spec, exclude_names=[idx[n] for n in o.get('exclude', [])])
+    by_node = {idx[L['name']]: L for L in o['layers']}
+    n = len(spec['nodes'])
+    ex = ['(mkExtra %s %s %s %s)' % (KIND[L['kind']], coq([Nat(k) for k in L['ks']]), coq(bool(L['bias'])), coq([[Nat(d) for d in st[2:]] for st in L['sites']])) if L else '(mkExtra KLinear [] false [])'
+          for L in (by_node.get(i) for i in range(n))]
+    ms = [coq_mask(by_node[i]) if i in by_node and by_node[i]['search'] else 'dmask' for i in range(n)]
+    return 'run_net (%s)%%nat (fun i => nth i [%s] (mkExtra KLinear [] false [])) [%s] %s' % (c09.coq_net(spec2), '; '.join(ex), '; '.join(ms), coq(bool(o['full_cost'])))
 
 
 def coq_case_expr(o):
@@ -340,6 +355,35 @@ def run(ctx):
                 if diff:
                     mism.append((_replay_dict(o), diff))
             ctx.extra['continuous_comparisons_skipped_overflow'] = nskip_cont
+            # ---- composed model (C09 IR -> derived calculators -> cost): networks without a re-invoked module
+            comp = [o for o in good if not any(nd['k'] == 'reuse' for nd in o['spec']['nodes'])]
+            cvals = ctx.coq_eval_sharded('composed', ['Plinio.Model.Masks', 'Plinio.Model.PitCost', 'Plinio.Model.PitCostNet', 'Plinio.Model.Calc'], '', [composed_expr(o) for o in comp], shard=8) if comp else []
+            for o, v in zip(comp, cvals):
+                costs, esizes, numel, (wf, cons, compat, static_ok, degen) = v
+                diff = {}
+                idxn = lambda L: int(L['name'].split('n')[-1])
+                lay = sorted(o['layers'], key=idxn)
+                for n in (ORDER if o['dim'] == 2 else ORDER[:4]):
+                    e3 = costs[ORDER.index(n)]        # ((a, b), (c, d)) is printed (a, b, (c, d))
+                    disc, pexp = Fraction(e3[0], e3[1]), Fraction(e3[2][0], e3[2][1])
+                    ctx.corr += 1
+                    idisc = o['pruned']['disc'].get(n, o['respec']['switched']['disc'].get(n))
+                    if idisc != disc:
+                        diff['composed-disc:' + n] = (idisc, str(disc))
+                    if o['exp_plain'][n] != pexp:
+                        diff['composed-exported-from-scratch:' + n] = (o['exp_plain'][n], str(pexp))
+                imp_sizes = [(o['exported'][L['name']]['cin'], o['exported'][L['name']]['cout'], o['exported'][L['name']]['groups'], list(o['exported'][L['name']]['ks'])) for L in lay]
+                if [tuple(x[:3]) + (list(x[3]),) for x in esizes] != imp_sizes:
+                    diff['composed-exported-sizes'] = (imp_sizes, esizes)
+                if numel != o['exp_numel']:
+                    diff['composed-numel'] = (o['exp_numel'], numel)
+                if not (wf and cons and compat and static_ok):
+                    diff['composed-hypotheses'] = {'wf': wf, 'consistent_b': cons, 'compat_b': compat, 'static_ok_b': static_ok}
+                if degen != bool(degenerate_layers(o)):
+                    diff['composed-degenerate-flag'] = (bool(degenerate_layers(o)), degen)
+                if diff:
+                    mism.append((_replay_dict(o), diff))
+            ctx.extra['composed_model_networks'] = len(comp)
         except RuntimeError as ex:
             model_ok = False
             ctx.notes.append('model evaluation failed: ' + str(ex)[-800:])
@@ -349,7 +393,7 @@ def run(ctx):
                         'input features calculators are READ from the implementation (their derivation from the graph is property C09); premise dw_consistent (a depthwise layer has as many alive outputs as inputs) is evaluated on every case',
                         'continuous (non-discrete) costs are float32 in the implementation: compared to relative 2^-17, and not compared for 1e30-valued parameters']
 
-    if not ctx.violations and not ctx.known_printed:
+    if not ctx.violations:          # an open known finding does not excuse a broken proof / model / correspondence
         if not built:
             ctx.violation('proof-broken', {'theorems': [o[0] for o in ctx.obligations if not o[1]], 'log': getattr(ctx, 'broken_log', '')[-3000:]}, 'Props/C04.v no longer checks', no_input=True)
         elif not model_ok:
